@@ -18,7 +18,7 @@ func init() {
 			"NOT decided: Range/FieldRef comparison semantics for every key type and nulls, bloom-filter hashing/tokenisation agreement between writer and reader (value-level).",
 		Assumptions: commonAssumptions,
 		Technique:   "static analysis: algebra shape by truth table, must-pass-through of RPN emission, sibling agreement of the bound helpers, guard dominance, argument-shape tables, registry tables",
-		Rules:       "C20.R1 R2 R3 R4 R5",
+		Rules:       "C20.R1 R2 R3 R4 R5 R6",
 	}
 }
 
@@ -478,3 +478,90 @@ func keysOfBool(m map[string]bool) []string {
 	return s
 }
 
+
+func init() {
+	old := All["C20"].Run
+	All["C20"].Run = func(c *an.Ctx) {
+		old(c)
+		c20round2(c)
+	}
+}
+
+func c20round2(c *an.Ctx) {
+	const S = "engine/index/sparseindex"
+	// R3 (extension): the open-middle rectangle of a multi-column key range lets every
+	// column behind the split column range over its whole domain; rgs is a shared
+	// scratch array that earlier recursion steps have narrowed.
+	r := c.Rule("C20.R3", "K-ORDER", S+":checkRangeLeftRightBound resets the ranges of all key columns behind the split column before it evaluates the open middle")
+	if f := fn(r, S+":KeyConditionImpl.checkRangeLeftRightBound"); f != nil {
+		var resetLoop *ast.ForStmt
+		ast.Inspect(f.Body, func(n ast.Node) bool {
+			fs, ok := n.(*ast.ForStmt)
+			if !ok || fs.Init == nil {
+				return true
+			}
+			as, ok := fs.Init.(*ast.AssignStmt)
+			if !ok || len(as.Rhs) != 1 || f.Canon(as.Rhs[0]) != "(1+p8)" {
+				return true
+			}
+			stores := 0
+			whole := 0
+			ast.Inspect(fs.Body, func(k ast.Node) bool {
+				if a2, ok := k.(*ast.AssignStmt); ok && len(a2.Lhs) == 1 {
+					if ix, ok := a2.Lhs[0].(*ast.IndexExpr); ok && types.ExprString(ix.X) == "rgs" {
+						stores++
+						if ce, ok := a2.Rhs[0].(*ast.CallExpr); ok && strings.HasPrefix(types.ExprString(ce.Fun), "createWholeRange") {
+							whole++
+						}
+					}
+				}
+				return true
+			})
+			if stores > 0 && stores == whole {
+				resetLoop = fs
+			}
+			return true
+		})
+		cbs := f.Find(an.MCallVar("callBack", f.Params[9]))
+		r.AddSites(cbs.Len() + 1)
+		if resetLoop == nil {
+			r.Fail(f.Name+": trailing ranges not reset", c.P.Pos(f.Body.Pos()), "no loop `for i := prefixSize+1; …` that sets rgs[i] to the whole range: the open-middle rectangle is evaluated with whatever an earlier recursion step left in the columns behind the split column, so a row there is covered by no rectangle and its fragment is pruned")
+		} else {
+			// the reset lies before the call-back of the multi-column branch
+			after := 0
+			for _, s := range cbs.List {
+				if s.Node.Pos() > resetLoop.End() {
+					after++
+				}
+			}
+			if after == 0 {
+				r.Fail(f.Name+": reset after use", c.P.Pos(resetLoop.Pos()), "the trailing ranges are reset only after the call-back was evaluated")
+			}
+		}
+	}
+
+	// R6: skip-index writers emit exactly one block per segment
+	r6 := c.Rule("C20.R6", "K-LOOPSELECT", S+": bloom-filter writers advance the output cursor for every segment (block k describes segment k)")
+	n := 0
+	for _, d := range c.P.AllDecls() {
+		if !an.InPkg(d, S) {
+			continue
+		}
+		f := c.P.Fn(d)
+		if f == nil {
+			continue
+		}
+		adv := f.Find(an.MNode("start = end", func(g *an.Fn, m ast.Node) bool {
+			as, ok := m.(*ast.AssignStmt)
+			return ok && len(as.Lhs) == 1 && len(as.Rhs) == 1 && types.ExprString(as.Lhs[0]) == "start" && types.ExprString(as.Rhs[0]) == "end"
+		}))
+		if adv.Len() == 0 {
+			continue
+		}
+		n++
+		f.LoopVisitsAll(r6, adv, "every segment advances the output cursor")
+	}
+	if n < 3 {
+		r6.Fail("per-segment writer loops", "-", "found %d bloom-filter writer loops with a block cursor, 3 confirmed by hand", n)
+	}
+}
